@@ -9,8 +9,11 @@ import (
 	"fmt"
 	"os"
 	"path/filepath"
+	"runtime"
 	"sort"
+	"strconv"
 	"strings"
+	"time"
 )
 
 // ---------------------------------------------------------------- PRNG
@@ -138,6 +141,16 @@ func ParseFlags() Opts {
 	flag.StringVar(&o.Replay, "replay", "", "replay file (records json) to re-run instead of generating")
 	flag.IntVar(&o.Scale, "scale", 1, "case count multiplier")
 	flag.Parse()
+	// a driver that does not finish is reported by check.py as a broken tie; leave a goroutine
+	// dump behind so that the hang can be located
+	if d, err := strconv.Atoi(os.Getenv("VERIF_DRIVER_DEADLINE")); err == nil && d > 0 {
+		time.AfterFunc(time.Duration(d)*time.Second, func() {
+			buf := make([]byte, 1<<22)
+			n := runtime.Stack(buf, true)
+			fmt.Fprintf(os.Stderr, "driver deadline of %d s exceeded; goroutines:\n%s\n", d, buf[:n])
+			os.Exit(4)
+		})
+	}
 	return o
 }
 
